@@ -37,6 +37,9 @@ type ConstV struct {
 	Name string
 }
 
+// StrV is a string constant (names of reports and columns).
+type StrV struct{ S string }
+
 // BoolV is a condition: Known with Val, or (Cond >= 0).
 type BoolV struct {
 	Known bool
@@ -153,6 +156,7 @@ type PathInfo struct {
 	Cap    *lin.Expr // sum of channel capacities since the fork
 	Stages int       // goroutine stages since the fork
 	Lead0  *lin.Expr // lead of the fork's source at the fork
+	Idx    int       // which output of the fork this path started at (the fork serves its outputs in index order)
 }
 
 // IndCall records that a stream is output OutIdx of a sub-indicator's Compute applied to Args.
